@@ -4,6 +4,17 @@ import json, pathlib
 V = pathlib.Path(__file__).resolve().parent.parent
 ALL = [f"C{i:02d}" for i in range(1, 20)]
 CLAIMED = {
+ "C03": dict(
+   text="Coq theorems over Fetch.v (value setter with lock test, own type check, forwarding along value-receiver chains before "
+        "the store; InputData.fetch; DataChannel.ready; set_input_values -> fetch -> readiness gate -> call): fetch takes the most "
+        "recently connected upstream output holding data else keeps its own value and touches only the receiver chain; the "
+        "function is called only by a non-running non-failed node whose inputs are all ready, with exactly the resolved values, "
+        "otherwise the run is refused with the store left by delivery; every delivery path (direct, keyword, fetch, forwarding "
+        "of any chain length) preserves 'no strictly hinted channel holds a hint-violating value'. Histories of public operations "
+        "on real channels and nodes are compared step by step with the model; the oracle re-derives the property's demands.",
+   design="7/C03", technique="Coq proofs (induction on receiver-chain fuel, store invariant over all delivery paths) + differential correspondence + oracle",
+   note="Hints are reduced to int-or-none here (the hint calculus is C04). A TypeError raised by the setter during fetch is "
+        "accepted as a refusal alongside ReadinessError. The cache is switched off on the nodes of this layer (C05 covers it)."),
  "C05": dict(
    text="Coq theorem over Cache.v (the run cycle of one node as the current code performs it: cache test, readiness gate, local "
         "or executor run, success/failure epilogue, cache write): for EVERY deterministic node function and EVERY history of "
